@@ -309,3 +309,38 @@ func VerifH_C04_Reach() {
 	vCover("end")
 	vAssert(err != nil || !is, "reach-twin")
 }
+
+// VerifH_C04_NamespaceIsolation — the heads reported for one field (or collection) are only that field's:
+// head sets of two different field ids (decimal short ids, e.g. "2" and "20") over the same store do not see
+// each other's heads
+func VerifH_C04_NamespaceIsolation() {
+	ids := []string{"2", "20", "21", "3", "C", "1", "10"}
+	a, b := vChoose("a", len(ids)), vChoose("b", len(ids))
+	vAssume(a != b)
+	_, txn, _ := vEnv()
+	ctx := context.Background()
+	var ha, hb *heads
+	if vConfInt("collection") != 0 {
+		// collection-level head sets: short collection ids
+		ca, cb := []uint32{1, 10, 2, 12, 3, 30, 7}[a], []uint32{1, 10, 2, 12, 3, 30, 7}[b]
+		ha = NewHeadSet(txn.head, keys.NewHeadstoreColKey(ca))
+		hb = NewHeadSet(txn.head, keys.NewHeadstoreColKey(cb))
+	} else {
+		ha = NewHeadSet(txn.head, keys.HeadstoreDocKey{DocID: vDocID, FieldID: ids[a]})
+		hb = NewHeadSet(txn.head, keys.HeadstoreDocKey{DocID: vDocID, FieldID: ids[b]})
+	}
+	ca, cb := vFakeCid(1, 1), vFakeCid(2, 2)
+	vAssert(ha.Write(ctx, ca, 3) == nil, "write")
+	vAssert(hb.Write(ctx, cb, 7) == nil, "write")
+	la, hgtA, err := ha.List(ctx)
+	vCover("listed")
+	vAssert(err == nil, "list-no-error")
+	vAssert(len(la) == 1, "only-own-heads-listed")
+	if len(la) >= 1 {
+		vAssert(la[0] == ca, "own-head-listed")
+	}
+	vAssert(hgtA == 3, "height-of-own-heads-only")
+	isH, err := ha.IsHead(ctx, cb)
+	vAssert(err == nil && !isH, "foreign-head-is-not-a-head-here")
+	vObserve("n", len(la))
+}
